@@ -140,7 +140,7 @@ static int child_state(const pid_t pid) {
   return info.si_pid == pid ? 1 : 0;
 }
 
-// The kernel's answer and its log line are made one atomic section (spin lock taken with every
+// For the non-blocking waitpid of the handler, the kernel's answer and its log line are made one atomic section (spin lock taken with every
 // signal blocked, so that the handler never runs in a thread that holds it): the log order of the
 // waitpid events of a child is then the order in which the kernel served them.
 static std::atomic_flag log_lock = ATOMIC_FLAG_INIT;
@@ -195,20 +195,14 @@ extern "C" pid_t waitpid(pid_t pid, int* status, int options) {
     const int want = pl->dmode == 'r' ? 2 : 1;
     for (unsigned t = 0; t < pl->delay && child_state(pid) < want; t += 100) ::usleep(100);
   }
-  // block (without reaping) until the child has terminated, has been reaped by somebody else, or a
-  // signal handler has run: exactly the three ways a blocking waitpid returns
-  siginfo_t info;
-  const int w = ::waitid(P_PID, static_cast<id_t>(pid), &info, WEXITED | WNOWAIT);
-  pid_t r = -1;
+  // The blocking call itself cannot be made atomic with its log line.  A successful reap by this
+  // call may therefore be logged after a handler's `H <pid> c` (ECHILD) that the kernel served
+  // later; the check moves such a `W .. r` line before the first ECHILD line of the same pid (an
+  // ECHILD answer is only possible after the reap).  ECHILD / EINTR answers of this call need no
+  // correction: the handler's reap is logged atomically, hence before them.
+  const pid_t r = real_waitpid(pid, status, options);
   int e = errno;
   {
-    LogSection ls;
-    if (w == -1 && e == EINTR) {
-      r = -1;  // interrupted: `status` is left untouched
-    } else {
-      r = real_waitpid(pid, status, options);  // immediate: zombie (-> pid) or already reaped (-> ECHILD)
-      e = errno;
-    }
     char* p = put_str(buf, "W ");
     p = put_int(p, pl->thread);
     *p++ = ' ';
